@@ -140,6 +140,13 @@ func checkRaw(c *NsxConfig) error {
 			}
 		}
 	}
+	for _, p := range c.Policies {
+		if !strings.HasPrefix(p.Id, "Netspoc") {
+			return fmt.Errorf(
+				"Must only define policy where name has prefix 'Netspoc': %s",
+				p.Id)
+		}
+	}
 	re = regexp.MustCompile(`^Netspoc-g\d`)
 	for _, g := range c.Groups {
 		if !strings.HasPrefix(g.Id, "Netspoc") {
